@@ -23,13 +23,14 @@ import (
 )
 
 type ev struct {
-	K   string `json:"k"`
-	P   int    `json:"p"`
-	Op  string `json:"op,omitempty"`
-	C   []int  `json:"c"`
-	IP  []int  `json:"ip"`
-	Res bool   `json:"res"`
-	Err bool   `json:"err"`
+	Cs  [][]int `json:"cs,omitempty"` // bulk: ranges added (sequentially, before anything else happens)
+	K   string  `json:"k"`
+	P   int     `json:"p"`
+	Op  string  `json:"op,omitempty"`
+	C   []int   `json:"c"`
+	IP  []int   `json:"ip"`
+	Res bool    `json:"res"`
+	Err bool    `json:"err"`
 }
 
 func bits(v uint32, n int) []int {
@@ -43,7 +44,85 @@ func ip4(v uint32) net.IP { b := make(net.IP, 4); binary.BigEndian.PutUint32(b, 
 
 var dwell atomic.Int64 // ns to stay inside a critical section (seeded per run)
 
+type procInfo struct {
+	b *evlog.Buf
+	p int
+}
+
+var procs sync.Map // goroutine id -> procInfo
+
+func goid() int64 {
+	var b [64]byte
+	n := runtime.Stack(b[:], false)
+	var id int64
+	for _, c := range b[len("goroutine "):n] {
+		if c < '0' || c > '9' {
+			break
+		}
+		id = id*10 + int64(c-'0')
+	}
+	return id
+}
+
+// switchRace: a filter one Add away from the list-to-maps switch; removers of present ranges and the switching Add are
+// released together from a spin barrier, trial after trial; afterwards every touched range is probed.
+func switchRace(w *vio.Writer, rng *rand.Rand, trials int) {
+	for t := 0; t < trials; t++ {
+		log := evlog.New()
+		flt := netutil.NewIPv4Filter()
+		main := log.Buf()
+		procs.Range(func(k, _ any) bool { procs.Delete(k); return true })
+		var cs [][]int
+		var present []uint32
+		for i := 0; i < 256; i++ {
+			v := uint32(20+t%50)<<24 | uint32(i)<<8
+			flt.Add(&net.IPNet{IP: ip4(v), Mask: net.CIDRMask(24, 32)})
+			cs = append(cs, bits(v, 24))
+			present = append(present, v)
+		}
+		main.Emit(ev{K: "bulk", Cs: cs, C: []int{}, IP: []int{}})
+		const R = 3
+		var ready atomic.Int32
+		var wg sync.WaitGroup
+		victims := rng.Perm(256)[:R]
+		newRange := uint32(90)<<24 | uint32(t%250)<<16
+		for g := 0; g <= R; g++ {
+			wg.Add(1)
+			go func(g int) {
+				defer wg.Done()
+				b := log.Buf()
+				ready.Add(1)
+				for ready.Load() <= R {
+				}
+				if g == R { // the Add that finds the list full and migrates
+					b.Emit(ev{K: "wb", P: 100 + g, Op: "add", C: bits(newRange, 16), IP: []int{}})
+					err := flt.Add(&net.IPNet{IP: ip4(newRange), Mask: net.CIDRMask(16, 32)})
+					b.Emit(ev{K: "we", P: 100 + g, Op: "add", C: bits(newRange, 16), IP: []int{}, Err: err != nil})
+					return
+				}
+				v := present[victims[g]]
+				b.Emit(ev{K: "wb", P: 100 + g, Op: "remove", C: bits(v, 24), IP: []int{}})
+				err := flt.Remove(&net.IPNet{IP: ip4(v), Mask: net.CIDRMask(24, 32)})
+				b.Emit(ev{K: "we", P: 100 + g, Op: "remove", C: bits(v, 24), IP: []int{}, Err: err != nil})
+			}(g)
+		}
+		wg.Wait()
+		probe := func(v uint32) {
+			main.Emit(ev{K: "rb", P: 50, C: []int{}, IP: bits(v, 32)})
+			main.Emit(ev{K: "re", P: 50, C: []int{}, IP: bits(v, 32), Res: flt.Contains(ip4(v))})
+		}
+		for g := 0; g < R; g++ {
+			probe(present[victims[g]] | 7)
+		}
+		probe(newRange | 0x1234)
+		probe(present[(victims[0]+1)%256] | 9)
+		maps, index, _ := flt.VerifState()
+		w.Put(map[string]any{"evs": log.Merge(), "maps": maps, "index": index, "run": -1, "note": "switchrace"})
+	}
+}
+
 func main() {
+	trials := flag.Int("switchrace", 200, "trials of the remove-across-the-switch race")
 	out := flag.String("out", "traces.ndjson", "")
 	runs := flag.Int("runs", 10, "")
 	nw := flag.Int("writers", 5, "")
@@ -52,6 +131,12 @@ func main() {
 	flag.Parse()
 	rng := rand.New(rand.NewSource(vio.Seed()))
 	netutil.VerifHook = func(f *netutil.IPv4Filter, e string) {
+		// linearisation point: emitted while the lock is held, so the order of these events is the order of the critical sections
+		if e != "add.migrating" {
+			if pi, ok := procs.Load(goid()); ok {
+				pi.(procInfo).b.Emit(ev{K: "lp", P: pi.(procInfo).p, C: []int{}, IP: []int{}})
+			}
+		}
 		d := dwell.Load()
 		if e == "add.migrating" {
 			time.Sleep(time.Duration(4 * d)) // the half-migrated state: mode switched, maps still empty
@@ -65,19 +150,22 @@ func main() {
 	}
 	w := vio.Create(*out)
 	defer w.Close()
+	switchRace(w, rng, *trials)
 	for run := 0; run < *runs; run++ {
 		dwell.Store(int64(50+rng.Intn(400)) * 1000)
 		log := evlog.New()
 		flt := netutil.NewIPv4Filter()
 		anchors := make([]uint32, *nw)
 		setup := log.Buf()
+		procs.Range(func(k, _ any) bool { procs.Delete(k); return true })
+		procs.Store(goid(), procInfo{setup, 99})
 		// setup (sequential): anchors + enough filler so that the switch happens under the readers
 		for i := 0; i < *nw; i++ {
 			anchors[i] = uint32(10+i)<<24 | 1<<16
 			c := &net.IPNet{IP: ip4(anchors[i] | rng.Uint32()&0xffff), Mask: net.CIDRMask(16, 32)}
-			setup.Emit(ev{K: "wb", P: 100 + i, Op: "add", C: bits(anchors[i], 16), IP: []int{}})
+			setup.Emit(ev{K: "wb", P: 99, Op: "add", C: bits(anchors[i], 16), IP: []int{}})
 			err := flt.Add(c)
-			setup.Emit(ev{K: "we", P: 100 + i, Op: "add", C: bits(anchors[i], 16), IP: []int{}, Err: err != nil})
+			setup.Emit(ev{K: "we", P: 99, Op: "add", C: bits(anchors[i], 16), IP: []int{}, Err: err != nil})
 		}
 		prefill := 150 + rng.Intn(100)
 		for i := 0; i < prefill; i++ {
@@ -101,6 +189,7 @@ func main() {
 				defer wg.Done()
 				r := rand.New(rand.NewSource(seed))
 				b := log.Buf()
+				procs.Store(goid(), procInfo{b, 100 + i})
 				defer func() {
 					if e := recover(); e != nil {
 						b.Emit(ev{K: "crash", P: 100 + i, Op: fmt.Sprint(e), C: []int{}, IP: []int{}})
@@ -170,6 +259,7 @@ func main() {
 				defer rg.Done()
 				r := rand.New(rand.NewSource(seed))
 				b := log.Buf()
+				procs.Store(goid(), procInfo{b, j + 1})
 				for n := 0; !stop.Load() && n < 3000; n++ {
 					var v uint32
 					switch r.Intn(4) {
@@ -196,6 +286,7 @@ func main() {
 		rg.Wait()
 		// updates have stopped: the filter must agree with the set obtained from the programs
 		fin := log.Buf()
+		procs.Store(goid(), procInfo{fin, 50})
 		for i := range touched {
 			for _, v := range touched[i] {
 				b := v | rng.Uint32()&0xff
